@@ -130,6 +130,41 @@ fn run_program(ti: usize, bars: &[ProgressBar], mp: &Option<MultiProgress>, ops:
                     let _ = mp.clear();
                 }
             }),
+            "set_style" => call(|| {
+                let t = ["{spinner} {pos}/{len} {msg}", "{msg}\n{pos}", "{prefix}{wide_msg}"][(op.n1() % 3) as usize];
+                pb.set_style(ProgressStyle::with_template(t).unwrap());
+            }),
+            "getters" => call(|| {
+                let _ = (pb.message(), pb.prefix(), pb.elapsed(), pb.duration(), pb.per_sec(), pb.style(), pb.is_hidden());
+            }),
+            "weak" => call(|| {
+                let w = pb.downgrade();
+                if let Some(p2) = w.upgrade() {
+                    p2.inc(1);
+                }
+            }),
+            "iter" => call(|| {
+                // iterator completion through a clone: inc per item, finish_using_style at the end
+                for _ in pb.wrap_iter(0..op.n1() % 4) {}
+            }),
+            "mp_insert" => call(|| {
+                if let Some(mp) = mp {
+                    let nb = ProgressBar::with_draw_target(Some(3), ProgressDrawTarget::hidden());
+                    let nb = match op.n1() % 3 {
+                        0 => mp.insert(0, nb),
+                        1 => mp.insert_from_back(0, nb),
+                        _ => mp.add(nb),
+                    };
+                    nb.tick();
+                    nb.finish();
+                }
+            }),
+            "mp_align" => call(|| {
+                if let Some(mp) = mp {
+                    mp.set_alignment(if op.n1() % 2 == 0 { indicatif::MultiProgressAlignment::Top } else { indicatif::MultiProgressAlignment::Bottom });
+                    mp.set_move_cursor(false);
+                }
+            }),
             "advance" => {
                 sched::advance(op.n1());
                 Ok(())
@@ -426,7 +461,7 @@ impl Check for C08 {
         "C08"
     }
     fn rule_text(&self) -> String {
-        "race: 2..3 simulated user threads each run 2..6 calls of update/enable_steady_tick/disable_steady_tick/tick/inc/set_message/println/suspend/finish/is_finished/getters/clone+drop/reset/set_length/mp.println/mp.suspend/mp.clear/mp.remove/mp.add (re-attach)/finish through a clone dropped on the same thread/advance/sleep on 1..3 shared bars (standalone or in a MultiProgress, hidden or on a simulated terminal), tick intervals 1 ms..10 h, under a seeded random / sticky / PCT scheduler with spurious condvar wake-ups and clock jitter; every lock, condvar, spawn, join (and optionally atomic) is a scheduling point. Oracles: no deadlock (no runnable thread and no pending timer; wait-for graph reported), all threads terminate once all handles are gone, disable/replace/drop return without the virtual clock having to move and leave no ticker thread behind. ticker: one user thread with phases enable / sleep k intervals / manual tick / inc / set_message / finish / disable: the ticker paints >= k-1 frames while idle, manual ticks do not advance the spinner, consecutive ticker frames advance it by one, no ticker frames after stop, the ticker thread is gone after finish (within two intervals), disable and drop. Non-trivial: race = >= 2 threads with operations; ticker = >= 2 phases. Distinct = distinct scenario hash; distinct interleavings reported separately.".into()
+        "race: 2..3 simulated user threads each run 2..6 calls of update/enable_steady_tick/disable_steady_tick/tick/inc/set_message/println/suspend/finish/is_finished/getters/clone+drop/reset/set_length/mp.println/mp.suspend/mp.clear/mp.remove/mp.add (re-attach)/finish through a clone dropped on the same thread/set_style/message+prefix+elapsed+duration+per_sec+style getters/downgrade+upgrade/wrap_iter completion/mp.insert+insert_from_back+add of a fresh bar/mp.set_alignment/advance/sleep on 1..3 shared bars (standalone or in a MultiProgress, hidden or on a simulated terminal), tick intervals 1 ms..10 h, under a seeded random / sticky / PCT scheduler with spurious condvar wake-ups and clock jitter; every lock, condvar, spawn, join (and optionally atomic) is a scheduling point. Oracles: no deadlock (no runnable thread and no pending timer; wait-for graph reported), all threads terminate once all handles are gone, disable/replace/drop return without the virtual clock having to move and leave no ticker thread behind. ticker: one user thread with phases enable / sleep k intervals / manual tick / inc / set_message / finish / disable: the ticker paints >= k-1 frames while idle, manual ticks do not advance the spinner, consecutive ticker frames advance it by one, no ticker frames after stop, the ticker thread is gone after finish (within two intervals), disable and drop. Non-trivial: race = >= 2 threads with operations; ticker = >= 2 phases. Distinct = distinct scenario hash; distinct interleavings reported separately.".into()
     }
     fn assumptions(&self) -> Vec<String> {
         vec![
@@ -511,7 +546,7 @@ impl Check for C08 {
             for _ in 0..n {
                 let b = rng.below(nb);
                 let owner = (b as usize) % nt == ti;
-                let k = rng.weighted(&[8, if owner { 6 } else { 0 }, if owner { 5 } else { 0 }, 4, 4, 3, 2, 2, 3, 2, 2, 2, 1, 1, 1, 1, 1, 3, 2, 2, 2, 1]);
+                let k = rng.weighted(&[8, if owner { 6 } else { 0 }, if owner { 5 } else { 0 }, 4, 4, 3, 2, 2, 3, 2, 2, 2, 1, 1, 1, 1, 1, 3, 2, 2, 2, 1, 1, 1, 1, 1, 1, 1]);
                 ops.push(match k {
                     0 => Op::new("update").n(b).n(rng.below(100)),
                     1 => Op::new("enable_steady_tick").n(b).n(rng.below(5)),
@@ -534,6 +569,12 @@ impl Check for C08 {
                     19 => Op::new("mp_remove").n(b),
                     20 => Op::new("mp_add").n(b),
                     21 => Op::new("drop_clone_finish").n(b),
+                    22 => Op::new("set_style").n(b).n(rng.below(3)),
+                    23 => Op::new("getters").n(b),
+                    24 => Op::new("weak").n(b),
+                    25 => Op::new("iter").n(b).n(rng.below(4)),
+                    26 => Op::new("mp_insert").n(b).n(rng.below(3)),
+                    27 => Op::new("mp_align").n(b).n(rng.below(2)),
                     _ => Op::new("sleep").n(0).n(*rng.pick(&[1_000_000, 15_000_000])),
                 });
             }
